@@ -188,7 +188,7 @@ theorem contentEnd_spec (r : Text) :
 exactly `ws ++ :tag: ++ raw ++ nl`. -/
 theorem extract_head_anchored (ws tag body : Text) (hws : ws.all isWs = true) :
     extractFieldContent (ws ++ marker tag ++ body) tag =
-      some (trimEndChar '\r' (trimEndChar '\n' (body.take (contentEnd body).1)),
+      some (replaceCrLf (trimEndChar '\r' (trimEndChar '\n' (body.take (contentEnd body).1))),
             ws.length + (marker tag).length + (contentEnd body).1 + (if (contentEnd body).2 then 1 else 0)) := by
   have hne : ∀ c ∈ ws, c ≠ ':' := by
     intro c hc heq
